@@ -3,11 +3,14 @@
 package main
 
 import (
+	"fmt"
 	"sync/atomic"
 	"time"
 
 	"github.com/pingcap/failpoint"
+	tikvkv "github.com/tikv/client-go/v2/kv"
 	"github.com/tikv/client-go/v2/txnkv/transaction"
+	"github.com/tikv/client-go/v2/verifx/hub"
 	"github.com/tikv/client-go/v2/verifx/vx"
 )
 
@@ -84,6 +87,267 @@ func c04Heartbeat(s shape, r *vx.Rand) {
 	w.Quiesce(scenarioTimeout)
 }
 
+// beatCounter counts the heart-beat requests of a client from now on (a repeating no-op fault on them).
+func beatCounter(w *hub.World, c *hub.Client) *atomic.Int32 {
+	n := new(atomic.Int32)
+	w.Gate().AddFault(&hub.Fault{Kind: hub.Topo, Client: c, Label: "beat", Repeat: true,
+		Match: func(kind, cmd string) bool { return kind == "heartbeat" },
+		Do:    func(*hub.World) { n.Add(1) }})
+	return n
+}
+
+// waitBeat waits (wall clock) for the next heart-beat of the client; false = none within the time allowed (many periods).
+func waitBeat(n *atomic.Int32, base int32, allowed time.Duration) bool {
+	return waitUntil(allowed, func() bool { return n.Load() > base })
+}
+
+// insertLockedAt is Client.InsertLocked with the for-update ts under control (LockAt): staged write that presumes the key
+// does not exist, lock call, and — only if it succeeded — the `insert` event.
+func insertLockedAt(c *hub.Client, key, v []byte, flags, sel string) string {
+	mb := c.Txn().GetMemBuffer()
+	h := mb.Staging()
+	if err := mb.SetWithFlags(key, v, tikvkv.SetPresumeKeyNotExists, tikvkv.SetNewlyInserted); err != nil {
+		mb.Cleanup(h)
+		return hub.Classify(err)
+	}
+	res := c.LockAt([][]byte{key}, flags, sel)
+	if res != "ok" {
+		mb.Cleanup(h)
+		return res
+	}
+	mb.Release(h)
+	return c.Insert(key, v)
+}
+
+// c04PessProgram: a pessimistic transaction whose individual LockKeys calls FAIL — write conflict (a third party committed
+// the key after the for-update ts the call uses), key exists (an insert over an existing key) — and which carries on with
+// OTHER keys: the first call (the one that picks the primary) may be the one that fails.  The transaction locks, writes,
+// optionally stays open over a few heart-beat periods (then the trace must show heart-beats), and commits or rolls back.
+// Monitor: every lock request names a primary that is locked or being locked (rule 8), heart-beats name it (rule 6), the
+// prewrites carry exactly the buffered mutations (rule 9) and the primary is among them (rule 8).
+func c04PessProgram(long bool, r *vx.Rand) {
+	if long {
+		old := atomic.SwapUint64(&transaction.ManagedLockTTL, 40)
+		defer atomic.StoreUint64(&transaction.ManagedLockTTL, old)
+		rec.Count("c04:pess-program:long")
+	}
+	nKeys := 3 + r.Intn(3)
+	keys := keyPool[:nKeys]
+	stores := 1
+	if r.Chance(15) {
+		stores = 3
+	}
+	w := hub.NewWorld(rec, hub.Options{Full: lean, Seed: r.U64(), Splits: pick(r, layoutsOf(1+r.Intn(3))), Stores: stores})
+	defer w.Close()
+	for _, k := range keys {
+		w.TrackKey(k)
+	}
+	if !seed(w, subset(r, keys, 50)) {
+		return
+	}
+	if r.Chance(30) {
+		must(failpoint.Enable("tikvclient/twoPCRequestBatchSizeLimit", "return"))
+		defer failpoint.Disable("tikvclient/twoPCRequestBatchSizeLimit")
+	}
+	a := w.NewClient("a")
+	step := func(f func()) bool { return runAll(w, scenarioTimeout, f) }
+	if !step(func() { a.Begin(true, pick(r, modes)) }) {
+		return
+	}
+	var beats *atomic.Int32
+	if long {
+		beats = beatCounter(w, a)
+	}
+	held := map[string]bool{}
+	np, locked := 0, 0
+	nSteps := 2 + r.Intn(5)
+	for i := 0; i < nSteps; i++ {
+		var free [][]byte
+		for _, k := range keys {
+			if !held[string(k)] {
+				free = append(free, k)
+			}
+		}
+		if len(free) == 0 {
+			break
+		}
+		ks := [][]byte{pick(r, free)}
+		if r.Chance(20) {
+			ks = sortedKeys(append(ks, pick(r, free)))
+		}
+		// the early steps fail more often: the call that picks the primary is the interesting one
+		failP := 35
+		if locked == 0 {
+			failP = 65
+		}
+		conflict := r.Chance(failP)
+		if conflict {
+			np++
+			if !thirdParty(w, fmt.Sprintf("p%d", np), [][]byte{pick(r, ks)}, np) {
+				return
+			}
+		}
+		res := ""
+		kind := r.Intn(10)
+		if !step(func() {
+			switch {
+			case kind < 2 && len(ks) == 1:
+				// INSERT: fails with key exists when the key has a value
+				res = insertLockedAt(a, ks[0], val(0, 0, i), pick(r, []string{"-", "n"}), "fresh")
+			default:
+				sel := "fresh"
+				if conflict && r.Chance(80) {
+					sel = "last" // the statement keeps the for-update ts it has: older than the third party's commit
+				}
+				res = a.LockAt(ks, pick(r, []string{"-", "-", "n", "r", "c"}), sel)
+				if res == "ok" {
+					w.AuditHeld(a, ks)
+					for j, k := range ks {
+						switch r.Intn(4) {
+						case 0:
+							a.Delete(k)
+						case 1:
+						default:
+							a.Set(k, val(0, 0, 10*i+j))
+						}
+					}
+				}
+			}
+		}) {
+			return
+		}
+		rec.Count("c04:pess-program:lock:" + res)
+		if res == "ok" {
+			locked += len(ks)
+			for _, k := range ks {
+				held[string(k)] = true
+			}
+		} else if locked == 0 {
+			rec.Count("c04:pess-program:first-lock-failed")
+		}
+	}
+	if long && locked > 0 {
+		// keep the transaction open: a heart-beat is due every 20 ms of wall clock
+		ok := true
+		for i := 0; i < 2 && ok; i++ {
+			base := beats.Load()
+			w.AdvanceClock(int64(5 + r.Intn(30)))
+			ok = waitBeat(beats, base, 2*time.Second)
+		}
+		w.AuditHeartbeat(a, 1)
+	}
+	commit := r.Chance(80)
+	if !step(func() {
+		if commit {
+			a.Commit()
+		} else {
+			a.Rollback()
+		}
+	}) {
+		return
+	}
+	if long {
+		time.Sleep(25 * time.Millisecond)
+	}
+	w.Quiesce(scenarioTimeout)
+}
+
+// c04LongTxn: a pessimistic transaction that stays open over several heart-beat periods while the virtual clock moves: the
+// ttl manager's heart-beats (wall-clock ticker, ManagedLockTTL 20 ms) extend the PRIMARY's ttl to "uptime + 20 ms", the other
+// keys keep the pessimistic locks they got at the beginning (ttl ≈ 20 ms), later their prewrite locks (3 s + elapsed).  Then
+// it commits (async commit / 1PC / 2PC; one prewrite request per key or per region) and, inside its prewrite phase, a foreign
+// client meets one of its locks: a reader (prewrite locks), a pessimistic locker or an optimistic writer (also the
+// pessimistic locks not prewritten yet) — on a secondary, whose own ttl has long elapsed on the foreigner's clock, or on the
+// primary.  The clock has NOT passed the primary's extended ttl: a resolver may neither roll the transaction back nor start
+// async-commit recovery (rule 5: only after the ttl its status check was shown has elapsed).  Small clock steps keep the
+// commit inside the async-commit safe window; large ones make the store fall back to 2PC.
+func c04LongTxn(s shape, r *vx.Rand) {
+	old := atomic.SwapUint64(&transaction.ManagedLockTTL, 20)
+	defer atomic.StoreUint64(&transaction.ManagedLockTTL, old)
+	s.pess = true
+	if r.Chance(65) {
+		s.mode = "async"
+	}
+	if r.Chance(75) {
+		must(failpoint.Enable("tikvclient/twoPCRequestBatchSizeLimit", "return"))
+		defer failpoint.Disable("tikvclient/twoPCRequestBatchSizeLimit")
+	}
+	sr := startShape(s, r)
+	w := sr.w
+	defer w.Close()
+	if !sr.ok {
+		return
+	}
+	rec.Count("c04:long-txn")
+	a := sr.a
+	beats := beatCounter(w, a)
+	alive := sr.prepared
+	stepMs := 100 + r.Intn(400)
+	if r.Chance(20) {
+		stepMs = 1800 + r.Intn(1500)
+		rec.Count("c04:long-txn:beyond-safe-window")
+	}
+	for i := 2 + r.Intn(2); i > 0 && alive; i-- {
+		base := beats.Load()
+		w.AdvanceClock(int64(stepMs + r.Intn(100)))
+		// the heart-beat after the move carries the new uptime
+		alive = waitBeat(beats, base, 2*time.Second)
+	}
+	var sd *side
+	if sr.prepared {
+		w.AuditHeartbeat(a, 1)
+		// the foreign client: started when the transaction is inside its prewrite phase
+		b := w.NewClient("b")
+		done := make(chan struct{})
+		key := s.keys[s.primary]
+		if len(s.keys) > 1 && r.Chance(85) {
+			for key = pick(r, s.keys); string(key) == string(s.keys[s.primary]); key = pick(r, s.keys) {
+			}
+		}
+		how := pick(r, []string{"read", "lock-nowait", "lock-wait", "write", "write"})
+		rec.Count("c04:long-txn:foreign:" + how)
+		hf := w.Gate().AddFault(&hub.Fault{Kind: hub.Hold, Client: a, N: r.Intn(len(s.keys)), Label: "foreign",
+			Match: func(kind, cmd string) bool { return kind == "prewrite" },
+			Start: func() {
+				defer close(done)
+				defer func() { recover() }()
+				switch how {
+				case "read":
+					b.Begin(false, "2pc")
+					b.Get(key)
+					b.Rollback()
+				case "lock-nowait", "lock-wait":
+					b.Begin(true, "2pc")
+					b.Lock([][]byte{key}, map[string]string{"lock-nowait": "n", "lock-wait": "-"}[how])
+					b.Rollback()
+				default:
+					b.Begin(false, "2pc")
+					b.Set(key, []byte{0x66})
+					b.Commit()
+				}
+			},
+			Until: func() bool {
+				select {
+				case <-done:
+					return true
+				default:
+				}
+				return b.RPCs() >= 4
+			},
+			MaxHold: 200 * time.Millisecond,
+		})
+		sd = &side{f: hf, done: done}
+	}
+	if _, ret := sr.final(); !ret {
+		return
+	}
+	if !sd.wait(w) {
+		return
+	}
+	time.Sleep(15 * time.Millisecond)
+	w.Quiesce(scenarioTimeout)
+}
+
 func runC04() {
 	nShapes := 1500
 	if run.Thorough() {
@@ -109,6 +373,23 @@ func runC04() {
 		c04Scenario(s, r.Bool(), fs, r.Fork())
 		if n%50 == 7 {
 			c04Heartbeat(genShape(r), r.Fork())
+		}
+		// (the families that wait for wall-clock heart-beats are thinned out in the thorough tier)
+		thin := 1
+		if run.Thorough() {
+			thin = 4
+		}
+		if n%3 == 1 {
+			c04PessProgram(n%(30*thin) == 1, r.Fork())
+			rec.Count("c04:family:pess-program")
+		}
+		if n%(10*thin) == 3 {
+			ls := genShape(r)
+			for len(ls.keys) < 2 {
+				ls = genShape(r)
+			}
+			c04LongTxn(ls, r.Fork())
+			rec.Count("c04:family:long-txn")
 		}
 	}
 }
